@@ -293,7 +293,7 @@ Definition arg_ok (evs : list wevent) (i : nat) (a : argspec) (ty : ctype) : boo
 Fixpoint args_ok (evs : list wevent) (i : nat) (args : list argspec) (tys : list ctype) : bool :=
   match args, tys with
   | [], [] => true
-  | a :: at', t :: tt => arg_ok evs i a t && args_ok evs (S i) at' tt
+  | a :: ar, t :: tr => arg_ok evs i a t && args_ok evs (S i) ar tr
   | _, _ => false
   end.
 
